@@ -288,11 +288,17 @@ fn shape(name: &str, s: usize) -> String {
                 format!("<vx:{name} {VX} type=\"String\"><![CDATA[hijacked]]></vx:{name}>")
             }
         }
-        _ => format!("<vx:box {VX} type=\"Structure\"><vx:{name} type=\"String\">boxed</vx:{name}><vx:{name} type=\"Float\">2.5</vx:{name}></vx:box>"),
+        3 => format!("<vx:box {VX} type=\"Structure\"><vx:{name} type=\"String\">boxed</vx:{name}><vx:{name} type=\"Float\">2.5</vx:{name}></vx:box>"),
+        // a foreign wrapper whose content uses unprefixed names: whatever is inside a foreign
+        // element belongs to that extension and must be ignored together with it
+        _ => {
+            let inner = shape(name, 2).replace("vx:", "").replace(&format!(" {VX}"), "");
+            format!("<vx:wrap {VX}>{inner}</vx:wrap>")
+        }
     }
 }
 
-/// X1 elements: every insertion position x every standard local name x 4 shapes
+/// X1 elements: every insertion position x every standard local name x 5 shapes
 pub fn elements(ctx: &Ctx) {
     let bk = ctx.pick("base-document", N_BASES);
     let d = match doc(bk) {
@@ -313,7 +319,7 @@ pub fn elements(ctx: &Ctx) {
     let (parent, at) = d.child_positions[pi].clone();
     ctx.describe(|| format!("base document {bk}: foreign element inserted into <{parent}> at XML byte {at}: every name of the list x 4 shapes"));
     for (ni, name) in NAMES.iter().enumerate() {
-        for s in 0..4 {
+        for s in 0..5 {
             ctx.evals(1);
             let ins = shape(name, s);
             let mut nx = String::with_capacity(d.xml.len() + ins.len());
@@ -353,7 +359,7 @@ pub fn elements(ctx: &Ctx) {
             }
         }
     }
-    ctx.ops((NAMES.len() * 4 * base_report.len()) as u64);
+    ctx.ops((NAMES.len() * 5 * base_report.len()) as u64);
     ctx.count(format!("parent:{parent}"));
     ctx.observe_u64((bk * 100000 + pi) as u64);
     ctx.nontrivial();
